@@ -679,15 +679,48 @@ def _single_assign_env(fn: FunctionInfo) -> dict[str, ast.AST]:
 
 
 def _free_guard_before(fn: FunctionInfo, call: ast.Call, self_name: str) -> bool:
-    """An `if <self.free_indices ...>: raise/return NotImplemented` statement that precedes the call at function level."""
-    for st in fn.node.body:
-        if st.lineno >= call.lineno:
-            break
-        if isinstance(st, ast.If) and not st.orelse:
-            tsrc = ast.unparse(st.test)
-            if f"{self_name}.free_indices" in tsrc and all(isinstance(x, (ast.Raise, ast.Return)) for x in st.body[-1:]):
-                return True
-    return False
+    """The call is only reached for tensors without free indices: an `if <self.free_indices ...>: raise/return` precedes it in one of
+    the blocks that enclose it, or it sits in the else arm of such a test (or in the body of `if self.free_indices == 0` / `if not ...`)."""
+    def mentions(test: ast.AST) -> bool:
+        return f"{self_name}.free_indices" in ast.unparse(test)
+
+    def leaves(stmts) -> bool:
+        return bool(stmts) and isinstance(stmts[-1], (ast.Raise, ast.Return))
+
+    def zero_test(test: ast.AST) -> bool:
+        if isinstance(test, ast.UnaryOp) and isinstance(test.op, ast.Not):
+            return mentions(test.operand)
+        return isinstance(test, ast.Compare) and len(test.ops) == 1 and isinstance(test.ops[0], ast.Eq) and mentions(test) \
+            and any(isinstance(c, ast.Constant) and c.value == 0 for c in [test.left] + test.comparators)
+
+    def contains(st: ast.AST) -> bool:
+        return any(x is call for x in ast.walk(st))
+
+    def search(stmts, guarded: bool) -> bool | None:
+        for st in stmts:
+            if contains(st):
+                if guarded:
+                    return True
+                if isinstance(st, ast.If):
+                    in_body = any(contains(x) for x in st.body)
+                    if in_body:
+                        return search(st.body, zero_test(st.test))
+                    if any(contains(x) for x in st.orelse):
+                        return search(st.orelse, mentions(st.test) and leaves(st.body) and not zero_test(st.test))
+                    return False  # in the test itself
+                for f in ("body", "orelse", "finalbody"):
+                    sub = getattr(st, f, None)
+                    if isinstance(sub, list) and sub and isinstance(sub[0], ast.stmt) and any(contains(x) for x in sub):
+                        return search(sub, False)
+                for h in getattr(st, "handlers", []):
+                    if any(contains(x) for x in h.body):
+                        return search(h.body, False)
+                return False
+            if isinstance(st, ast.If) and not st.orelse and mentions(st.test) and leaves(st.body) and not zero_test(st.test):
+                guarded = True
+        return None
+
+    return bool(search(fn.node.body, False))
 
 
 def rule_V1(run: Run, prog: Program) -> int:
@@ -779,6 +812,7 @@ def rule_V4(run: Run, prog: Program) -> int:
     fn = prog.lookup(tensor, "transpose")
     if fn is None:
         return 0
+    fn = prog.body_of(fn)
     # the permutation variable: argument of <something>.transpose(...) / np.transpose(..., axes=...)
     perm = None
     for node in walk_no_nested(fn.node):
